@@ -1086,3 +1086,41 @@ func VerifC20DataOnlyCycle() {
 	}
 	vassert(err != nil, "a cycle closed by a data-only input is rejected by Compile")
 }
+
+// The same predecessor declared twice for one workflow node - first as a data-only input, then as an ordinary input
+// (or the other way round), and two predecessors mapped onto the same END field through the deprecated AddEnd: each
+// is a duplicate declaration that Compile rejects, on every attempt.
+func VerifC20DuplicateInputs() {
+	ctx := context.Background()
+	vcfg("fifo", 1)
+	wf := NewWorkflow[map[string]any, map[string]any]()
+	wf.AddLambdaNode("a", vNode("a", nil)).AddInput(START)
+	b := wf.AddLambdaNode("b", vNode("b", nil))
+	kind := vchoose("kind", 4)
+	switch kind {
+	case 0:
+		b.AddInputWithOptions("a", []*FieldMapping{ToField("x")}, WithNoDirectDependency())
+		b.AddInput("a", ToField("y"))
+		b.AddDependency(START)
+		wf.End().AddInput("b")
+	case 1:
+		b.AddInput("a", ToField("y"))
+		b.AddInputWithOptions("a", []*FieldMapping{ToField("x")}, WithNoDirectDependency())
+		wf.End().AddInput("b")
+	case 2: // two predecessors onto the same END field, both through AddEnd
+		b.AddInput(START)
+		wf.AddEnd("a", ToField("x"))
+		wf.AddEnd("b", ToField("x"))
+	case 3: // well-formed control
+		b.AddInput("a", ToField("y"))
+		wf.End().AddInput("b")
+	}
+	_, err1 := wf.Compile(ctx)
+	_, err2 := wf.Compile(ctx)
+	if kind == 3 {
+		vassert(err1 == nil && err2 == nil, "the well-formed workflow compiles")
+		return
+	}
+	vassert(err1 != nil, "a predecessor declared twice for one node / two mappings onto one END field are rejected by Compile")
+	vassert(err2 != nil, "and on every further attempt")
+}
